@@ -501,6 +501,157 @@ fn emissions_sequences(e: &Env, tier: Tier, t: &mut T) -> u64 {
     states
 }
 
+// ---------------------------------------------------------------- (C2) rewards on the borrowing side
+
+/// The same judgement for a bank whose rewards go to *borrowers* (and, in a second variant, to both sides): u0 lends
+/// the bank, u1 owes it. The bank's interest curve and fees are zeroed, so share values stay constant and the reward
+/// arithmetic is exact. Every sequence up to depth 3 (quick) / 4 of {settle, small deposit by the lender, repay /
+/// borrow a little by the borrower, claim by either, 30-day advance}.
+fn emissions_borrow_side(e: &Env, tier: Tier, t: &mut T) -> u64 {
+    use marginfi_type_crate::constants::{EMISSIONS_FLAG_BORROW_ACTIVE, EMISSIONS_FLAG_LENDING_ACTIVE};
+    let w = &e.w;
+    let bank = w.banks[0].key;
+    let accts = [w.users[0].account, w.users[1].account];
+    let auths = [w.users[0].authority, w.users[1].authority];
+    let tas = [w.users[0].tokens[&w.banks[0].mint], w.users[1].tokens[&w.banks[0].mint]];
+    let mut states = 0u64;
+    for (vname, flags) in [("borrow_only", EMISSIONS_FLAG_BORROW_ACTIVE), ("both_sides", EMISSIONS_FLAG_BORROW_ACTIVE | EMISSIONS_FLAG_LENDING_ACTIVE)] {
+        let mut s0 = e.s.clone();
+        // a reward destination for the borrower
+        let dest_wallet = key("G:u1:emissions_wallet");
+        let dest1 = ata(&dest_wallet, &e.em_mint, &spl_token::id());
+        create_token_account_at(&mut s0, &w.payer, &dest1, &e.em_mint, &dest_wallet, false);
+        if !process_tx(&mut s0, &Tx::one(ix::update_emissions_destination(accts[1], auths[1], dest_wallet), &[auths[1]])).ok() {
+            t.class(format!("emissions:{vname}:setup_failed"));
+            continue;
+        }
+        let dests = [e.em_dest_u0, dest1];
+        // no interest: an all-zero curve without fees
+        world::edit_bank(&mut s0, &bank, |b| {
+            let ir = &mut b.config.interest_rate_config;
+            ir.zero_util_rate = 0;
+            ir.hundred_util_rate = 0;
+            ir.points = [marginfi_type_crate::types::RatePoint::default(); 5];
+            ir.curve_type = marginfi_type_crate::types::INTEREST_CURVE_SEVEN_POINT;
+            ir.insurance_fee_fixed_apr = I80F48::ZERO.into();
+            ir.insurance_ir_fee = I80F48::ZERO.into();
+            ir.protocol_fixed_fee_apr = I80F48::ZERO.into();
+            ir.protocol_ir_fee = I80F48::ZERO.into();
+        });
+        world::edit_group(&mut s0, &w.group, |g| {
+            g.fee_state_cache.program_fee_fixed = I80F48::ZERO.into();
+            g.fee_state_cache.program_fee_rate = I80F48::ZERO.into();
+        });
+        let _ = act::apply(w, &mut s0, &Action::Accrue { b: 0 });
+        for k in 0..2 {
+            let _ = process_tx(&mut s0, &Tx::one(ix::settle_emissions(accts[k], bank), &[act::stranger()]));
+        }
+        world::edit_bank(&mut s0, &bank, |b| {
+            b.emissions_remaining = raw_i80(1_000_000_000f64).into();
+            b.emissions_rate = 1_000_000;
+            b.flags = (b.flags & !(EMISSIONS_FLAG_BORROW_ACTIVE | EMISSIONS_FLAG_LENDING_ACTIVE)) | flags;
+        });
+        mint_to(&mut s0, &w.mint_auth, &e.em_mint, &ix::emissions_vault(&bank, &e.em_mint), false, 2_000_000_000_000);
+        #[derive(Clone, Debug, serde::Serialize)]
+        enum BAct {
+            Advance(i64),
+            Settle(usize),
+            LenderDeposit(u64),
+            Repay(u64),
+            Borrow(u64),
+            Claim(usize),
+        }
+        // (asset amount, liability amount, outstanding rewards)
+        let pos = |s: &Store, k: usize| -> Option<(Q, Q, Q)> {
+            let a = world::try_account(s, &accts[k])?;
+            let b = world::try_bank(s, &bank)?;
+            a.lending_account.balances.iter().find(|x| x.active != 0 && x.bank_pk == bank).map(|x| (rf::q(x.asset_shares) * rf::q(b.asset_share_value), rf::q(x.liability_shares) * rf::q(b.liability_share_value), rf::q(x.emissions_outstanding)))
+        };
+        struct BState {
+            s: Store,
+            path: Vec<BAct>,
+            touched: [u64; 2],
+        }
+        let depth = if tier == Tier::Quick { 3 } else { 4 };
+        let mut frontier = vec![BState { s: s0.clone(), path: vec![], touched: [s0.now as u64; 2] }];
+        let mut seen: BTreeSet<[u8; 32]> = BTreeSet::new();
+        for _ in 0..depth {
+            let mut next = vec![];
+            for st in &frontier {
+                let acts = vec![BAct::Advance(86_400 * 30), BAct::Settle(0), BAct::Settle(1), BAct::LenderDeposit(1_000_000), BAct::Repay(100_000), BAct::Borrow(100_000), BAct::Claim(0), BAct::Claim(1)];
+                for a in acts {
+                    if let BAct::Advance(_) = a {
+                        if st.path.iter().filter(|p| matches!(p, BAct::Advance(_))).count() >= 2 {
+                            continue;
+                        }
+                    }
+                    let mut post = st.s.clone();
+                    let mut path = st.path.clone();
+                    path.push(a.clone());
+                    let rep = json!({"model": "C19C2", "variant": vname, "path": path});
+                    let (ok, who): (bool, Option<usize>) = match &a {
+                        BAct::Advance(dt) => {
+                            post.advance(*dt);
+                            refresh_oracles(&mut post, w);
+                            (true, None)
+                        }
+                        BAct::Settle(k) => (process_tx(&mut post, &Tx::one(ix::settle_emissions(accts[*k], bank), &[act::stranger()])).ok(), Some(*k)),
+                        BAct::LenderDeposit(amt) => (process_tx(&mut post, &Tx::one(ix::deposit(w.group, accts[0], auths[0], bank, tas[0], spl_token::id(), *amt, None, vec![]), &[auths[0]])).ok(), Some(0)),
+                        BAct::Repay(amt) => (process_tx(&mut post, &Tx::one(ix::repay(w.group, accts[1], auths[1], bank, tas[1], spl_token::id(), *amt, None, vec![]), &[auths[1]])).ok(), Some(1)),
+                        BAct::Borrow(amt) => (process_tx(&mut post, &Tx::one(ix::borrow(w.group, accts[1], auths[1], bank, tas[1], spl_token::id(), *amt, w.risk_metas(&st.s, &accts[1], None, None)), &[auths[1]])).ok(), Some(1)),
+                        BAct::Claim(k) => (process_tx(&mut post, &Tx::one(ix::withdraw_emissions(w.group, accts[*k], auths[*k], bank, e.em_mint, dests[*k], spl_token::id()), &[auths[*k]])).ok(), Some(*k)),
+                    };
+                    t.cells += 1;
+                    let kind = format!("{:?}", a).split('(').next().unwrap().to_string();
+                    if !ok {
+                        t.class(format!("emissions:{vname}:{kind}:refused"));
+                        continue;
+                    }
+                    t.class(format!("emissions:{vname}:{kind}:ok"));
+                    let mut touched = st.touched;
+                    if let Some(k) = who {
+                        let (pre, postp) = (pos(&st.s, k), pos(&post, k));
+                        let paid = world::token_amount(&post, &dests[k]) as i128 - world::token_amount(&st.s, &dests[k]) as i128;
+                        let (b0, b1) = (world::bank(&st.s, &bank), world::bank(&post, &bank));
+                        let (rem0, rem1) = (rf::q(b0.emissions_remaining), rf::q(b1.emissions_remaining));
+                        let credited = postp.as_ref().map(|p| p.2.clone()).unwrap_or_else(Q::zero) - pre.as_ref().map(|p| p.2.clone()).unwrap_or_else(Q::zero) + rf::qi(paid);
+                        // a deposit earns iff lending rewards are on, a debt iff borrowing rewards are on
+                        let size = match &pre {
+                            Some((a_amt, l_amt, _)) if *l_amt >= rf::qone() => {
+                                if b0.flags & EMISSIONS_FLAG_BORROW_ACTIVE != 0 { l_amt.clone() } else { Q::zero() }
+                            }
+                            Some((a_amt, _, _)) if *a_amt >= rf::qone() => {
+                                if b0.flags & EMISSIONS_FLAG_LENDING_ACTIVE != 0 { a_amt.clone() } else { Q::zero() }
+                            }
+                            _ => Q::zero(),
+                        };
+                        let period = rf::qi(post.now as i128 - st.touched[k] as i128);
+                        let expected = rf::qmin(period * size.clone() / rf::pow10(6) / rf::qi(31_536_000) * rf::qu(b0.emissions_rate), rem0.clone());
+                        let tol = rf::ulp() * rf::qi(64) * (rf::qone() + expected.clone()) + rf::qfrac(1, 1_000_000);
+                        if (credited.clone() - expected.clone()).abs() > tol {
+                            t.found.push(Found { clause: "C19.emissions_proportional".into(), sig: format!("{vname}:{kind}"), detail: format!("{vname} {:?}: {} position of size {:.0} credited {:.6} reward units, expected {:.6}", path, if k == 1 { "debt" } else { "deposit" }, rf::qf64(&size), rf::qf64(&credited), rf::qf64(&expected)), replay: rep.clone() });
+                        }
+                        let spent = rem0.clone() - rem1.clone();
+                        if rem1.is_negative() || (spent.clone() - credited.clone()).abs() > tol {
+                            t.found.push(Found { clause: "C19.emissions_within_budget".into(), sig: format!("{vname}:{kind}"), detail: format!("{vname} {:?}: remaining budget went {:.6} -> {:.6} while {:.6} was credited", path, rf::qf64(&rem0), rf::qf64(&rem1), rf::qf64(&credited)), replay: rep.clone() });
+                        }
+                        if expected > Q::zero() {
+                            t.class(format!("emissions:{vname}:{}:earned", if k == 1 { "debt" } else { "deposit" }));
+                        }
+                        touched[k] = post.now as u64;
+                    }
+                    if seen.insert(crate::canon::state_key(&post, &[])) {
+                        next.push(BState { s: post, path, touched });
+                    }
+                }
+            }
+            states += next.len() as u64;
+            frontier = next;
+        }
+    }
+    states
+}
+
 // ---------------------------------------------------------------- (D) reward withdrawal authorisation
 
 fn reward_authorisation(e: &Env, t: &mut T) {
@@ -547,7 +698,7 @@ pub fn run(tier: Tier) -> Outcome {
     drawdowns(&e, &mut t);
     repointed_destination(&e, &mut t);
     emissions_funding(&e, &mut t);
-    let states = emissions_sequences(&e, tier, &mut t);
+    let states = emissions_sequences(&e, tier, &mut t) + emissions_borrow_side(&e, tier, &mut t);
     reward_authorisation(&e, &mut t);
     let mut o = Outcome { level: "exploration".into(), ..Default::default() };
     let mut per: BTreeMap<(String, String), usize> = BTreeMap::new();
@@ -557,7 +708,7 @@ pub fn run(tier: Tier) -> Outcome {
         *n <= 2
     }).collect();
     let ok: u64 = t.classes.iter().filter(|(k, _)| k.ends_with(":ok") || k.contains(":ok:")).map(|(_, v)| *v).sum();
-    for need in ["collect:B6:ok:limited_by_liquidity", "collect:B6:ok:paid_in_full", "emissions:ample:Claim:ok", "emissions:nearly_exhausted:Claim:ok", "rewards:withdraw_emissions:normal:entitled:ok", "drawdown:withdraw_fees:entitled:ok", "rotated_wallet:B6:cache_stale:new_wallet:ok", "funding:spl:top_up:ok", "repoint:entitled:own_group:repointed:paid", "repoint:not_entitled:foreign_group:refused:not_paid", "funding:t22_fee1pct:top_up:ok", "funding:t22_fee_capped:top_up:ok", "rotated_wallet:B6:propagated:new_wallet:ok"] {
+    for need in ["collect:B6:ok:limited_by_liquidity", "collect:B6:ok:paid_in_full", "emissions:ample:Claim:ok", "emissions:nearly_exhausted:Claim:ok", "emissions:borrow_only:debt:earned", "emissions:both_sides:debt:earned", "emissions:both_sides:deposit:earned", "emissions:borrow_only:Claim:ok", "rewards:withdraw_emissions:normal:entitled:ok", "drawdown:withdraw_fees:entitled:ok", "rotated_wallet:B6:cache_stale:new_wallet:ok", "funding:spl:top_up:ok", "repoint:entitled:own_group:repointed:paid", "repoint:not_entitled:foreign_group:refused:not_paid", "funding:t22_fee1pct:top_up:ok", "funding:t22_fee_capped:top_up:ok", "rotated_wallet:B6:propagated:new_wallet:ok"] {
         if *t.classes.get(need).unwrap_or(&0) == 0 {
             o.machinery.push(format!("vacuity guard: class {need} never occurred"));
         }
@@ -569,7 +720,7 @@ pub fn run(tier: Tier) -> Outcome {
         "evaluations": t.cells,
         "distinct_nontrivial": ok,
         "emission_states": states,
-        "rule": "(A) buckets {0, 0.25, 1, 1.75, 100.5, 250.5}^3 x liquidity {0, 1, 5, 300, 352, 353, 1e6} x {SPL bank, Token-2022 bank with a 1 % transfer fee}: each bucket falls by a whole number not above its whole part, the liquidity vault pays exactly that sum, each of insurance vault / fee vault / global fee wallet's canonical token account receives its own bucket's amount (net of the mint's fee), everything whole is paid when liquidity suffices; (A2) after the global fee admin rotated the fee wallet, with the group's cached copy {stale, propagated}, collection offered the token account of {previous, current} wallet: nothing may be paid to the previous wallet's; (B) {withdraw_fees, withdraw_insurance, withdraw_fees_permissionless} x 12 signers x {fixed destination, another token account}; (B2) 12 signers x {own, foreign group in the group slot} re-point the fee destination, then a stranger withdraws permissionlessly into it: only the bank's own group admin can make that pay; (C0) setup_emissions x top-up through update_emissions_parameters x reward mint {SPL, Token-2022 without fee, 1 % fee, fee capped at 700} x totals {1, 99, 100, 1e6, 123456789} x top-ups {0, 1, 101, 1e6, 77777777}: the booked remaining budget never exceeds the tokens in the reward vault; (C) every sequence up to depth 4 (quick) / 5 of {deposit small / large, withdraw, withdraw-all, settle, claim} by two accounts, clock advances {30 d, 1 y} (at most two) and the emissions admin switching the lending rewards off / on (at most twice) x budgets {ample, nearly exhausted, zero rate, high rate, ample but initially switched off}: credited rewards = elapsed x size-before x rate / year capped by the remaining budget, where *elapsed* is measured by the reference's own ledger of when each position was last touched (not read back from the program's field) and nothing is earned while the rewards are switched off at the time of the touch; budget falls by exactly that and never below zero; (D) reward withdrawal {signed, permissionless} x 12 signers x {normal, in receivership, frozen, disabled} x {configured destination, another reward token account}",
+        "rule": "(A) buckets {0, 0.25, 1, 1.75, 100.5, 250.5}^3 x liquidity {0, 1, 5, 300, 352, 353, 1e6} x {SPL bank, Token-2022 bank with a 1 % transfer fee}: each bucket falls by a whole number not above its whole part, the liquidity vault pays exactly that sum, each of insurance vault / fee vault / global fee wallet's canonical token account receives its own bucket's amount (net of the mint's fee), everything whole is paid when liquidity suffices; (A2) after the global fee admin rotated the fee wallet, with the group's cached copy {stale, propagated}, collection offered the token account of {previous, current} wallet: nothing may be paid to the previous wallet's; (B) {withdraw_fees, withdraw_insurance, withdraw_fees_permissionless} x 12 signers x {fixed destination, another token account}; (B2) 12 signers x {own, foreign group in the group slot} re-point the fee destination, then a stranger withdraws permissionlessly into it: only the bank's own group admin can make that pay; (C0) setup_emissions x top-up through update_emissions_parameters x reward mint {SPL, Token-2022 without fee, 1 % fee, fee capped at 700} x totals {1, 99, 100, 1e6, 123456789} x top-ups {0, 1, 101, 1e6, 77777777}: the booked remaining budget never exceeds the tokens in the reward vault; (C) every sequence up to depth 4 (quick) / 5 of {deposit small / large, withdraw, withdraw-all, settle, claim} by two accounts, clock advances {30 d, 1 y} (at most two) and the emissions admin switching the lending rewards off / on (at most twice) x budgets {ample, nearly exhausted, zero rate, high rate, ample but initially switched off}: credited rewards = elapsed x size-before x rate / year capped by the remaining budget, where *elapsed* is measured by the reference's own ledger of when each position was last touched (not read back from the program's field) and nothing is earned while the rewards are switched off at the time of the touch; budget falls by exactly that and never below zero; (C2) the same judgement on a bank that rewards borrowers / both sides (u0 lends, u1 owes; interest switched off): every sequence up to depth 3 (quick) / 4 of {settle either, lender deposits, borrower repays / borrows a little, claim by either, 30-day advance (at most two)}: a debt earns iff borrowing rewards are on, a deposit iff lending rewards are on, each on its own size; (D) reward withdrawal {signed, permissionless} x 12 signers x {normal, in receivership, frozen, disabled} x {configured destination, another reward token account}",
         "exhaustive": TRUNCATED.load(std::sync::atomic::Ordering::Relaxed) == 0,
         "cap_hit": if TRUNCATED.load(std::sync::atomic::Ordering::Relaxed) == 0 { serde_json::Value::Null } else { json!(format!("reward-sequence frontier capped at {} states per layer; {} states were dropped from the last layers", FRONTIER_CAP, TRUNCATED.load(std::sync::atomic::Ordering::Relaxed))) },
         "outcome_classes": t.classes,
